@@ -61,3 +61,11 @@ N("c03-n-retry-if-form", "C03", A, DL,
 N("c03-n-cancel-early-return", "C03", A, CA,
   "        if not self._cancel_called:\n            if self._timeout_handle:\n                self._timeout_handle.cancel()\n                self._timeout_handle = None\n",
   "        if self._cancel_called:\n            return\n\n        if True:\n            if self._timeout_handle:\n                self._timeout_handle.cancel()\n                self._timeout_handle = None\n")
+
+# from seeded changes C03/c and C03/d (round 2)
+M("c03-deadline-setter-rearms-only-pending-timer", "C03", A, "CancelScope.deadline@setter",
+  "            self._timeout_handle = None\n\n        if self._active and not self._cancel_called:\n            self._timeout()",
+  "            self._timeout_handle = None\n            if self._active and not self._cancel_called:\n                self._timeout()", ["R03-j"])
+M("c03-thread-token-wait-under-shield", "C03", A, "AsyncIOBackend.run_sync_in_worker_thread",
+  "        async with limiter or cls.current_default_thread_limiter():\n            with CancelScope(shield=not abandon_on_cancel) as scope:",
+  "        with CancelScope(shield=not abandon_on_cancel) as scope:\n            async with limiter or cls.current_default_thread_limiter():", ["R03-k"])
